@@ -1,4 +1,5 @@
 import Capella.Lemmas.Index
+import Capella.Lemmas.IndexApi
 
 /-!
 # C04 — UUIDs stay unique at load, creation and save; failed creation leaves no trace
@@ -25,6 +26,16 @@ theorem wanted_uuid_free_granted (l : Loader) (fi : Nat) (cands : List String) (
     (hc : ∀ f ∈ l, Consistent f) (hk : k ∉ allIds l) :
     generateUuid l fi (some k) cands = .ok (l.modify fi (fun f => idcacheReserve f k), k) :=
   generateUuid_want_free l fi cands k (fun f hf => (hc f hf).1) hk
+
+/-- **Every created object receives a UUID used nowhere else, and the model stays sound**: the API-level
+creation (`new_uuid` → element carrying exactly that id → attach → index), for any requested id or any
+stream of random draws, yields a loader whose indexes agree with the trees and whose ids are still
+pairwise distinct; the id it used occurred in no loaded fragment before. No side condition is left to
+the caller. -/
+theorem creation_keeps_uuids_unique (l l' : Loader) (fi pos : Nat) (want : Option String)
+    (cands : List String) (mk : String → Entry) (k : String) (hi : Inv l) (hmk : ∀ s, (mk s).ids = [s])
+    (h : apiCreate l fi pos want cands mk = .ok (l', k)) : Inv l' ∧ k ∉ allIds l :=
+  apiCreate_inv l l' fi pos want cands mk k hi hmk h
 
 /-- Indexing a fragment in which one id sits on two different elements is refused
 (`CorruptModelError`) unless duplicates are explicitly ignored — for every position of the two. -/
